@@ -13,6 +13,7 @@ Definition res_eqb (a b : res) : bool :=
   | RBind x, RBind y => list_eqb Nat.eqb x y
   | RReset, RReset => true
   | RServed, RServed => true
+  | RTampered, RTampered => true
   | RSkipped, RSkipped => true
   | _, _ => false
   end.
